@@ -154,7 +154,7 @@ var c03GenCfg = mpclgen.Config{Arrays: true, Structs: true, Funcs: true, Loops: 
 
 func c03Shipped() []string {
 	var files []string
-	filepath.Walk("/repo/testsuite", func(path string, info os.FileInfo, err error) error {
+	filepath.Walk(vrt.Repo+"/testsuite", func(path string, info os.FileInfo, err error) error {
 		if err == nil && strings.HasSuffix(path, ".mpcl") {
 			files = append(files, path)
 		}
@@ -201,7 +201,7 @@ func runC03(cs *vrt.Case) {
 }
 
 func c03ShippedCase(cs *vrt.Case, file string) {
-	base := strings.TrimPrefix(file, "/repo/")
+	base := strings.TrimPrefix(file, vrt.Repo+"/")
 	if !cs.Thorough() && strings.Contains(base, "aes128_cts") {
 		cs.Count("shipped_skipped_in_quick", 1)
 		return
@@ -361,7 +361,7 @@ func reverseHex(val string) string {
 }
 
 func nativeCircuitEmpty(src string) bool {
-	for _, f := range []string{"/repo/pkg/crypto/sha512/sha512.circ", "/repo/pkg/crypto/sha512/sha512.mpclc"} {
+	for _, f := range []string{vrt.Repo+"/pkg/crypto/sha512/sha512.circ", vrt.Repo+"/pkg/crypto/sha512/sha512.mpclc"} {
 		if st, err := os.Stat(f); err == nil && st.Size() == 0 && strings.Contains(src, "sha512") {
 			return true
 		}
